@@ -62,7 +62,7 @@ A_LO, A_MID, A_HI = 0, 4, 0xFFFFFFFC
 def _alphabet() -> list:
     a: list = [["nop"], ["tag"], ["reset"]]
     # LOAD: every residue class of the data length mod 16 that matters + address / memory id boundaries
-    for n in (1, 15, 16, 17, 31, 32, 48):
+    for n in (0, 1, 15, 16, 17, 31, 32, 48):  # 0: a LOAD without payload (0 mod 16; the builder accepts it)
         a.append(["load", A_MID, 0, n])
     a += [["load", A_LO, 0, 16], ["load", A_HI, 0, 16]]
     for mem in (1, 0x101, 0x9):
